@@ -1,0 +1,8 @@
+//go:build !verif
+
+// Package verifhook provides observation points for external verification harnesses.
+// Without the "verif" build tag every point is an empty function that the compiler removes.
+package verifhook
+
+// Point marks a place between two externally visible effects. It does nothing in normal builds.
+func Point(string) {}
